@@ -10,7 +10,7 @@ import json
 import os
 import random
 
-from vlib import (Inconclusive, ScenarioSink, cex_last_state, cfg, finish, kf_open, log, build_harness, run_harness,
+from vlib import (known_findings, Inconclusive, ScenarioSink, cex_last_state, cfg, finish, kf_open, log, build_harness, run_harness,
                   save_replay, tla_bool, tlc, validate_traces)
 
 RULE = ("TLC enumerates the schedule families of SenderEnv.tla (every configuration of the family; every interface-call "
@@ -26,7 +26,7 @@ PROPS = {
             "formulas": ["P_C02_Release", "P_C02_NoFalsePositive"]},
     "C03": {"families": ["faulty", "crashes", "plain", "changes", "changes2"],
             "formulas": ["P_C03_Delivered", "P_C16_Terminates"]},
-    "C07": {"families": ["crashes"],
+    "C07": {"families": ["crashes", "recover"],
             "formulas": ["P_C07_OnlyMissing", "P_C07_NoResend", "P_C02_Release", "P_C03_Delivered"]},
     "C08": {"families": ["faulty", "crashes"],
             "formulas": ["P_C08_Remainder", "P_C08_ReceiverCount", "P_C08_SentAfterAck"]},
@@ -64,6 +64,36 @@ def gen_family(ctx, fam):
     return out
 
 
+def sender_design(ctx):
+    """C16: the goroutine choreography of Broker.Start (Sender.tla) under every interleaving."""
+    base = {"Files": '{"f1"}', "Cap": 1, "Senders": '{"x1"}', "Retriers": '{"r1"}', "MaxFaults": 1, "MaxFail": 1,
+            "DropParts": "TRUE", "KF_S17": "FALSE", "KF_S27": "FALSE"}
+    invs = ["P_C16_NoSendOnClosed", "P_C16_Drain", "P_C16_TrackerLive"]
+    runs = [("one file, every stop moment, 1 request failure, 1 failed validation, a vanished file", base, invs, [])]
+    if ctx.tier == "thorough":
+        runs.append(("the same with termination under weak fairness", dict(base, MaxFaults=0), invs, ["P_C16_Terminates"]))
+        runs.append(("two files", dict(base, Files='{"f1", "f2"}', MaxFail=0), invs, []))
+    notes = []
+    for what, c, inv, props in runs:
+        r = tlc(ctx, "Sender", cfg("Spec", c, inv, props), timeout=3000, heap="10g", workers=8)
+        ctx.states += r.distinct
+        ctx.transitions += r.generated
+        notes.append({"run": what, "distinct": r.distinct, "generated": r.generated})
+        if r.violated:
+            raise Inconclusive("design counterexample for %s in Sender.tla (%s): the model says the shutdown can go wrong; "
+                               "not a verdict until reproduced on the real Broker" % (r.violated[0], what))
+        if not r.ok:
+            raise Inconclusive("TLC did not finish Sender.tla (%s):\n%s" % (what, r.out[-1200:]))
+    if ctx.tier == "thorough":
+        # the model must still be able to represent the two shutdown hangs that were repaired
+        for fid, c in (("S17", dict(base, KF_S17="TRUE")), ("S27", dict(base, Files='{"f1", "f2"}', MaxFail=0, KF_S27="TRUE"))):
+            r = tlc(ctx, "Sender", cfg("Spec", c, ["P_C16_TrackerLive"]), timeout=3000, heap="10g", workers=8)
+            if "P_C16_TrackerLive" not in r.violated:
+                raise Inconclusive("Sender.tla with KF_%s = TRUE (the code as found) no longer shows the hang" % fid)
+            notes.append({"run": "as found: " + fid, "hang_found": True})
+    ctx.notes["design"] = notes
+
+
 def constants():
     return {"KF_" + k: tla_bool(kf_open(k)) for k in KF}
 
@@ -89,7 +119,8 @@ def scenario_of(last):
 
 def check(ctx, replay=None):
     P = PROPS[ctx.prop]
-    ctx.level = "fault_enumeration"
+    # C16 also has a design model (Sender.tla) whose interleavings TLC explores exhaustively
+    ctx.level = "model_checking" if ctx.prop == "C16" else "fault_enumeration"
     ctx.exhaustive = False
     build_harness(ctx)
     consts = constants()
@@ -110,11 +141,21 @@ def check(ctx, replay=None):
                 s = dict(s)
                 s["fam"] = fam
                 scns.append(s)
+        # the recorded failing schedule of every open finding is executed on every run
+        if "P_C03_Delivered" in P["formulas"]:
+            for f in known_findings():
+                w = f.get("witness", {})
+                if f.get("status") == "open" and w.get("engine") == "sender":
+                    s = dict(w["scenario"])
+                    s["fam"] = "witness-" + f["id"]
+                    scns.append(s)
         for i, s in enumerate(scns):
             s["id"] = i + 1
         ctx.notes["families"] = fam_sizes
         ctx.exhaustive = all(n <= per for n in fam_sizes.values())
         ctx.notes["executed"] = len(scns)
+    if ctx.prop == "C16" and not replay:
+        sender_design(ctx)
     rounds = 1 if ctx.tier == "quick" or replay else 2
     allres = []
     for rd in range(rounds):
